@@ -26,7 +26,7 @@ RULE = (
     "snapshot), no symbol stranded without referent, still serializable. "
     "non-trivial = at least one sanitizer pass on a rewritten module; "
     "distinct = shape signature x number of fault points."
-    " Patches may carry real alignment directives; 40% of the modules have alignment entries on input blocks; zero-sized input blocks as in C01; in 40% every unknown return target is one shared proxy; 30% of the ELF modules designate DT_INIT/DT_FINI blocks, which must name the code where the block's first label is afterwards; 60% of the data lines of data patches are written as typed directives (.ascii: an encodings entry)."
+    " Patches may carry real alignment directives; 40% of the modules have alignment entries on input blocks; zero-sized input blocks as in C01; in 40% every unknown return target is one shared proxy; 30% of the ELF modules designate DT_INIT/DT_FINI blocks, which must name the code where the block's first label is afterwards; 60% of the data lines of data patches are written as typed directives (.ascii: an encodings entry); 30% of the modules have types/encodings entries on input data blocks."
 )
 ASSUMPTIONS = [
     "faults are injected only at patch callbacks (as the property says)",
@@ -58,6 +58,10 @@ def gen_case(rng, tier, index):
                 if ln.get("k") == "bytes" and rng.random() < 0.6:
                     # typed data (an entry in the encodings table)
                     ln["as"] = "ascii"
+    if rng.random() < 0.3:
+        # input data blocks with entries in the types / encodings tables
+        case["typed_data"] = sorted(b for b in data_ids
+                                    if rng.random() < 0.6)
     if case["fmt"] == "elf" and rng.random() < 0.3:
         # DT_INIT / DT_FINI: blocks the loader calls (elfDynamicInit /
         # elfDynamicFini tables); like the entry point they follow their
@@ -212,6 +216,15 @@ def run_case(case):
             if case.get(ck) is not None:
                 r.bu.module.aux_data[tname] = gtirb.AuxData(
                     r.bu.blocks[case[ck]], "UUID")
+        for k, bid in enumerate(case.get("typed_data") or ()):
+            for tname, val in (("types", f"t{k}"), ("encodings", "string")):
+                t = r.bu.module.aux_data.get(tname)
+                if t is None:
+                    t = r.bu.module.aux_data[tname] = gtirb.AuxData(
+                        {}, "mapping<UUID,string>")
+                t.data[r.bu.blocks[bid]] = val
+            ctr["typed_input_data_blocks"] = ctr.get(
+                "typed_input_data_blocks", 0) + 1
         state["snap"] = irsan.Snapshot(r.bu.module)
         # (under PassManager this runs inside the manager's return-cache
         # context, where ir.cfg already is the cache: the caller's object is
